@@ -56,16 +56,7 @@ theorem format_parse (s : Mpf) (dps : Nat) (ln2 ln10 : Mpf) (strip : Bool) (mn m
   · have hdv := decValueL_litL hok
     rw [hv] at hdv
     rw [hl]
-    apply strToManExp_value hdv
-    right
-    obtain ⟨c, r, rfl⟩ := List.exists_cons_of_ne_nil hne
-    refine ⟨c, r ++ (dotStr true fp ++ expStr eo), ?_, hok.ipd c List.mem_cons_self⟩
-    have hc : isDigitC c = true := hok.ipd c List.mem_cons_self
-    unfold litL
-    apply dropSign_append hok.sign
-    intro c' r' h'
-    rw [← (List.cons.inj h').1]
-    constructor <;> (rintro rfl; revert hc; decide)
+    exact strToManExp_value (decValueU_of_decValueL hdv)
 
 example : toDigitsExp ⟨1, 5, -2, 3⟩ (3 + 3) fzero fzero = .ok ("-".toList, "125000000".toList, 0) ∧
     toStr ⟨1, 5, -2, 3⟩ 3 fzero fzero = .ok "-1.25".toList := by decide +kernel
@@ -122,5 +113,37 @@ theorem nstr_nearest_counterexample :
     linarith
   rw [abs_of_pos (by linarith : (0 : ℚ) < val aboveFifteenHundredths - 1 / 10), abs_lt]
   constructor <;> linarith
+
+/-! ### repr round trip: digit count -/
+
+/-- the Boolean form of the digit-count condition at precision `p` -/
+def reprOKb (p : Nat) : Bool := decide (2 ^ p < 10 ^ (repr_dps p - 1))
+
+/-- the condition holds on `[1, 20000]`: one kernel evaluation of a halving Bool fold (about 2 minutes) -/
+theorem reprDpsOK_fold : allRange reprOKb 15 1 20000 = true := by decide +kernel
+
+/-- **`reprDpsOK`.** For every precision `1 ≤ p ≤ 20000` the number of digits used by `repr` satisfies
+`10^(repr_dps p - 1) > 2^p` — the Matula/Goldberg condition under which printing a `p`-bit binary number
+to that many correctly rounded digits and converting back with correct rounding is the identity.
+(`repr_dps` contains float arithmetic, modelled by the binary64 model validated against CPython.)
+Before the repair c03e100 this was false at exactly `p = 54` (`repr_dps 54` was 17 and `10^16 < 2^54`;
+witness `x = -11537171455164529·2^249`, whose 17-digit print `-1.0436821770958033e+91` converts back to
+a different number). -/
+theorem reprDpsOK : ∀ p, 1 ≤ p → p ≤ 20000 → 2 ^ p < 10 ^ (repr_dps p - 1) := by
+  intro p h1 h2
+  have h3 : p < 1 + 20000 := by omega
+  exact of_decide_eq_true (allRange_sound reprOKb 15 1 20000 reprDpsOK_fold p h1 h3)
+
+/-- the pre-repair witness now round-trips: 18 digits at 54 bits -/
+example : repr_dps 54 = 18 ∧
+    toStr ⟨1, 11537171455164529, 249, 54⟩ (repr_dps 54) fzero fzero =
+      .ok "-1.04368217709580335e+91".toList ∧
+    fromStr "-1.04368217709580335e+91".toList 54 .n = .ok ⟨1, 11537171455164529, 249, 54⟩ := by
+  decide +kernel
+
+/-- what the old digit count did (17 digits at 54 bits): the print converts back to another number -/
+example : toStr ⟨1, 11537171455164529, 249, 54⟩ 17 fzero fzero = .ok "-1.0436821770958033e+91".toList ∧
+    fromStr "-1.0436821770958033e+91".toList 54 .n = .ok ⟨1, 721073215947783, 253, 50⟩ ∧
+    ¬ (2 ^ 54 < 10 ^ (17 - 1)) := by decide +kernel
 
 end Mp
